@@ -61,6 +61,10 @@ for g in GROUPS:
             env.eq('plus_is_Exp_a_times_X', raw(s), ref)
             env.eq('plus_accepts_plain_tensor', raw(X + ad), ref)
             env.eq('components_beyond_manifold_dim_ignored', raw(X + T.cat([ad, extra], -1)), ref)
+            # exactly one extra component: the width of the group's own storage (the shape of X.grad)
+            env.eq('a_gradient_shaped_increment_uses_its_first_dof_components', raw(X + T.cat([ad, extra[0:1]], -1)), ref)
+            Zg = lie(pp, g, Xd.clone()); Zg.add_(T.cat([ad, extra[0:1]], -1))
+            env.eq('add__with_a_gradient_shaped_increment', raw(Zg), ref)
             env.eq('plus_leaves_operand_unchanged', raw(X), Xd)
             Z = lie(pp, g, Xd.clone())
             r = Z.add_(a)
